@@ -416,17 +416,26 @@ fn substring(
 ) -> error::Result<model::Value> {
     let mut args = args.iter();
     let v = String::try_from(args.next().unwrap())?;
-    let s = f64::try_from(args.next().unwrap())?.round() as usize - 1;
-    let c = if let Some(v) = args.next() {
-        Some(f64::try_from(v)?.round() as usize)
+    let start = round_half_up(f64::try_from(args.next().unwrap())?);
+    let end = if let Some(v) = args.next() {
+        start + round_half_up(f64::try_from(v)?)
     } else {
-        None
+        f64::INFINITY
     };
-    let (_, mut r) = v.split_at(s);
-    if let Some(c) = c {
-        (r, _) = r.split_at(c);
-    }
-    Ok(model::Value::Text(r.to_string()))
+
+    // The character at position p (counting from 1) is kept if start <= p < start + length,
+    // which is false whenever NaN is involved.
+    let r = v
+        .chars()
+        .enumerate()
+        .filter(|(i, _)| {
+            let p = (i + 1) as f64;
+            start <= p && p < end
+        })
+        .map(|(_, c)| c)
+        .collect::<String>();
+
+    Ok(model::Value::Text(r))
 }
 
 fn string_length(
@@ -439,7 +448,9 @@ fn string_length(
     } else {
         &model::Value::Node(vec![node])
     };
-    Ok(model::Value::Number(String::try_from(arg)?.len() as f64))
+    Ok(model::Value::Number(
+        String::try_from(arg)?.chars().count() as f64,
+    ))
 }
 
 fn normalize_space(
@@ -593,5 +604,18 @@ fn round(
     _: &mut model::Context,
 ) -> error::Result<model::Value> {
     let arg = f64::try_from(args.first().unwrap())?;
-    Ok(model::Value::Number(arg.round()))
+    Ok(model::Value::Number(round_half_up(arg)))
+}
+
+/// The integer closest to the argument, the one closer to positive infinity of two such
+/// integers; NaN, the infinities and the zeros are returned as they are, and a number between
+/// -0.5 and zero gives negative zero.
+fn round_half_up(value: f64) -> f64 {
+    if value.is_nan() || value.is_infinite() || value == 0f64 {
+        value
+    } else if (-0.5..0f64).contains(&value) {
+        -0f64
+    } else {
+        (value + 0.5).floor()
+    }
 }
